@@ -181,7 +181,17 @@ pub fn exec(agent: &mut StunAgent, call: &Call, base: Instant) -> Reply {
 
 fn exec_inner(agent: &mut StunAgent, call: &Call, base: Instant) -> Reply {
     match call {
-        Call::Send { spec, to, at } => spec.with_builder(|b| match agent.send(b, *to, inst(base, *at)) {
+        // the builder is handed over as built, as a clone of it, or after `into_owned()` (an application
+        // that prepared the request elsewhere) — decided by the call's own content, not by the PRNG
+        Call::Send { spec, to, at } => spec.with_builder(|b| match agent.send(
+            match (spec.tid as u64 ^ (*at / 1_000_000)) % 4 {
+                1 => b.clone(),
+                2 => b.into_owned(),
+                _ => b,
+            },
+            *to,
+            inst(base, *at),
+        ) {
             Ok(t) => Reply::Transmit { data: t.data().to_vec(), from: t.from, to: t.to, tcp: t.transport == TransportType::Tcp },
             Err(e) => Reply::SendErr(format!("{e:?}")),
         }),
@@ -231,7 +241,8 @@ fn exec_inner(agent: &mut StunAgent, call: &Call, base: Instant) -> Reply {
             agent.set_local_credentials(c.lib());
             Reply::Unit
         }
-        Call::QueryTx { tid } => Reply::Tx(agent.request_transaction(TransactionId::from(*tid)).map(|r| r.peer_address())),
+        // (`StunRequest` is `Clone`: odd ids are asked through a clone of the handle)
+        Call::QueryTx { tid } => Reply::Tx(agent.request_transaction(TransactionId::from(*tid)).map(|r| if tid & 1 == 1 { r.clone().peer_address() } else { r.peer_address() })),
         Call::QueryPeer { addr } => Reply::Peer(agent.is_validated_peer(*addr)),
         Call::SendData { bytes, to } => {
             let t = agent.send_data(bytes, *to);
